@@ -257,6 +257,11 @@ func (e *Ext) add(n *sx.Node) {
 }
 
 func (e *Ext) NoteDisplayD(d D, goVal any) {
+	if d.K == "p" {
+		// %v of a pointer is an address: the parameter's rendering is not compared for pointer arguments
+		e.add(sx.T("disp", d.Sx(), sx.S("<pointer>")))
+		return
+	}
 	e.add(sx.T("disp", d.Sx(), sx.S(fmt.Sprintf("%v", goVal))))
 }
 
@@ -288,6 +293,19 @@ func dGoValue(d D) any {
 		return d.B
 	case "t":
 		return d.T
+	case "p":
+		// a pointer to an int / string destination value (fresh allocation: a DISTINCT pointer to an equal value)
+		if d.P == nil {
+			return (*int)(nil)
+		}
+		switch d.P.K {
+		case "i":
+			x := int(d.P.I)
+			return &x
+		case "s":
+			x := d.P.S
+			return &x
+		}
 	}
 	return nil
 }
